@@ -54,16 +54,49 @@ func SpecQ6L4(q []byte) []byte      { return q[44:] }
 func SpecQ6Len(q []byte) int        { return int(q[8])<<8 + int(q[9]) }
 func SpecQ6Next(q []byte) int       { return int(q[10]) }
 
+// specAddrLens: what gopacket's IP decoders leave in the address slices — both set together, to 4 (IPv4) / 16 (IPv6)
+// bytes, or both still nil when that layer was never decoded.
+func specAddrLens(p *FrameParser) bool {
+	return len(p.IP4.SrcIP) == len(p.IP4.DstIP) && (len(p.IP4.SrcIP) == 0 || len(p.IP4.SrcIP) == 4) &&
+		len(p.IP6.SrcIP) == len(p.IP6.DstIP) && (len(p.IP6.SrcIP) == 0 || len(p.IP6.SrcIP) == 16)
+}
+
 // SpecParsed is the exported form of specParsed for contracts of other packages.
 func SpecParsed(p *FrameParser) bool { return specParsed(p) }
 
-// SpecOuterSrc / SpecOuterDst: the addresses of the IP layer of a parsed packet.
-func SpecOuterSrc(p *FrameParser) netip.Addr { pair, _ := p.GetIPPair(); return pair.SrcAddr }
-func SpecOuterDst(p *FrameParser) netip.Addr { pair, _ := p.GetIPPair(); return pair.DstAddr }
+// SpecOuterSrc / SpecOuterDst: the addresses of the IP layer of a parsed packet, read from the decoded header
+// independently of GetIPPair (an oracle must not call the code it judges): the 4 address bytes of an IPv4 header as an
+// IPv4 address; the 16 bytes of an IPv6 header as they are — an IPv6 packet whose addresses are IPv4-mapped is IPv6
+// traffic, not traffic of an IPv4 flow.
+func SpecOuterSrc(p *FrameParser) netip.Addr {
+	if len(p.Layers) >= 1 && p.Layers[0] == layers.LayerTypeIPv4 {
+		a, _ := netip.AddrFromSlice(p.IP4.SrcIP)
+		return a.Unmap()
+	}
+	if len(p.Layers) >= 1 && p.Layers[0] == layers.LayerTypeIPv6 {
+		a, _ := netip.AddrFromSlice(p.IP6.SrcIP)
+		return a
+	}
+	return netip.Addr{}
+}
+func SpecOuterDst(p *FrameParser) netip.Addr {
+	if len(p.Layers) >= 1 && p.Layers[0] == layers.LayerTypeIPv4 {
+		a, _ := netip.AddrFromSlice(p.IP4.DstIP)
+		return a.Unmap()
+	}
+	if len(p.Layers) >= 1 && p.Layers[0] == layers.LayerTypeIPv6 {
+		a, _ := netip.AddrFromSlice(p.IP6.DstIP)
+		return a
+	}
+	return netip.Addr{}
+}
 
 // specParsed is the representation invariant a successfully parsed FrameParser satisfies:
 // at least two decoded layers, an IP layer followed by a transport layer traceroute knows.
-func specParsed(p *FrameParser) bool {
+func specParsed(p *FrameParser) bool { return specAddrLens(p) && specLayersOK(p) }
+
+// specLayersOK: the layer list is IP followed by a transport layer (what checkLayers accepts)
+func specLayersOK(p *FrameParser) bool {
 	return len(p.Layers) >= 2 &&
 		(p.Layers[0] == layers.LayerTypeIPv4 || p.Layers[0] == layers.LayerTypeIPv6) &&
 		(p.Layers[1] == layers.LayerTypeTCP || p.Layers[1] == layers.LayerTypeUDP ||
@@ -88,7 +121,7 @@ func specParsed(p *FrameParser) bool {
 //@ inline
 //@ safety C09
 //@ requires[pre.nonnil]    p != nil
-//@ ensures[C09.checklayers] (ret0 == nil) == specParsed(p)
+//@ ensures[C09.checklayers] (ret0 == nil) == specLayersOK(p)
 //@ modifies nothing
 
 //@ func (*FrameParser).getParser
@@ -135,6 +168,7 @@ func specParsed(p *FrameParser) bool {
 //@ requires[pre.nonnil]    p != nil
 //@ requires[pre.parsed]    specParsed(p)
 //@ ensures[C09.ippair.ok]  ret1 == nil
+//@ ensures[C01+C04+C11.ippair.addr] ret0.SrcAddr == SpecOuterSrc(p) && ret0.DstAddr == SpecOuterDst(p)
 //@ modifies nothing
 
 //@ func (*FrameParser).IsTTLExceeded
